@@ -415,7 +415,7 @@ func handle(line string) (res string) {
 	switch {
 	case op == "packet.conn" && len(args) == 6:
 		return conn(args)
-	case op == "packet.read" && len(args) == 6: // the last word is the oracle's claim, not an input
+	case op == "packet.read" && (len(args) == 6 || len(args) == 5): // an optional last word is the oracle's claim, not an input
 		return readOnly(args)
 	case op == "packet.wlen" && len(args) == 2:
 		return wlen(args)
